@@ -64,7 +64,11 @@ def analyse(ctx, rep, rule):
             c.atoms = path_atoms(p, b, rep, rule)
             c.divs = []
             for e in p.calls('divide_segment'):
-                c.divs.append((ent(e['args'][0], p), point_name(e['args'][1], p), e['line']))
+                a0 = e['args'][0]
+                s0 = strip_upd(a0)
+                if s0[0] == 'ref' and s0[1][0][0] == 'loc' and s0[1] not in p.final.mem and 0 in e.get('ref_vals', {}):
+                    a0 = ('refval', e['ref_vals'][0])      # a temporary of a helper that no longer exists at the end of the path
+                c.divs.append((ent(a0, p), point_name(e['args'][1], p), e['line']))
             c.types = {}
             from rules.tables import event_cell_stores
             for (i, ptr, field, val) in event_cell_stores(p):
@@ -206,6 +210,9 @@ def resolve_ptr_eq(at):
     return out
 
 
+ORACLE_ATOMS = ('eq(se1.point,se2.point)', 'eq(other1.point,other2.point)', 'eq(se1.is_subject,se2.is_subject)')
+
+
 def check_code(ctx, rep, rule='T-code'):
     r = analyse(ctx, rep, rule)
     if r is None:
@@ -226,24 +233,37 @@ def check_code(ctx, rep, rule='T-code'):
                 rep.ob(rule, 'intersection-arguments', ok,
                        'intersection() must be given (se1.point, other1.point, se2.point, other2.point), is given %s' % c.inter_args,
                        loc=b.loc(b.j['line_lo']), reason='provenance')
-        exp = oracle(at)
-        if exp is None:
-            continue
-        inst = case_key(at)
-        found = (c.ret, [(d[0], d[1]) for d in c.divs], c.types)
-        ok = (found[0] == exp[0] and found[1] == exp[1] and found[2] == exp[2])
-        if inst in seen and ok:
-            continue
-        seen[inst] = 1
-        n += 1
-        rep.ob(rule, inst, ok,
-               'possible_intersection returns %s, divides %s, types %s; expected return %s, divisions %s, types %s'
-               % (found[0], found[1], found[2], exp[0], exp[1], exp[2]),
-               loc=b.loc(c.divs[0][2]) if c.divs else b.loc(b.j['line_lo']), reason='table-row',
-               expected={'ret': exp[0], 'divisions': exp[1], 'types': exp[2]},
-               found={'ret': found[0], 'divisions': found[1], 'types': found[2]})
-        if not ok:
-            rep.violations[-1]['path'] = ['%s:%s' % (b.file, l) for l in c.path.branch_lines()][:14]
+        # the path fixes some atoms; the outcome must be right for every value of the atoms it did not test (an untested
+        # atom that the expected outcome depends on is a missing case distinction)
+        free = [a for a in ORACLE_ATOMS if a not in at]
+        if at.get('inter_kind') == 1:
+            free = [a for a in free if a in ('eq(se1.point,se2.point)', 'eq(other1.point,other2.point)')]
+        elif at.get('inter_kind') == 2:
+            free = [a for a in free if a in ('eq(se1.point,se2.point)', 'eq(other1.point,other2.point)', 'eq(se1.is_subject,se2.is_subject)')]
+        else:
+            free = []
+        import itertools
+        for combo in itertools.product((False, True), repeat=len(free)):
+            at2 = dict(at)
+            at2.update(dict(zip(free, combo)))
+            exp = oracle(at2)
+            if exp is None:
+                continue
+            inst = case_key(at2)
+            found = (c.ret, [(d[0], d[1]) for d in c.divs], c.types)
+            ok = (found[0] == exp[0] and found[1] == exp[1] and found[2] == exp[2])
+            if inst in seen and ok:
+                continue
+            seen[inst] = 1
+            n += 1
+            rep.ob(rule, inst, ok,
+                   'possible_intersection returns %s, divides %s, types %s; expected return %s, divisions %s, types %s'
+                   % (found[0], found[1], found[2], exp[0], exp[1], exp[2]),
+                   loc=b.loc(c.divs[0][2]) if c.divs else b.loc(b.j['line_lo']), reason='table-row',
+                   expected={'ret': exp[0], 'divisions': exp[1], 'types': exp[2]},
+                   found={'ret': found[0], 'divisions': found[1], 'types': found[2]})
+            if not ok:
+                rep.violations[-1]['path'] = ['%s:%s' % (b.file, l) for l in c.path.branch_lines()][:14]
     rep.rows_compared += n
     rep.floor(rule, 'distinct cases', n, 24)
     # reader agreement: 2 is returned exactly on the paths that type the twins
